@@ -7,19 +7,39 @@ request tasks on the deterministic loop; connectors are the in-memory fakes of
 Caller analysis (what histories are generated, ground rule 1):
 
 * ``deploy(cfg)`` is called by every ``DeployStep.run`` (one per deployment and workflow; recovery
-  workflows re-load and re-run DeploySteps while the original workflow is still running), connector
+  workflows re-load and re-run DeploySteps while the original workflow is still running); connector
   calls reach a lazy deployment through the ``FutureConnector`` the manager returned. So concurrent
-  ``deploy``/use requests on the same or on stacked deployments, repeated, are producible.
+  ``deploy``/use requests on the same or on stacked deployments, repeated, are producible. A step
+  learns a deployment's name from the DeployStep's token, i.e. only after a ``deploy`` returned.
 * ``undeploy_all()`` is called exactly once per run, by ``StreamFlowContext.close()`` in the
   ``finally`` of ``main``/``cwl.runner``. ``StreamFlowExecutor.run`` raises as soon as one output port
-  terminates FAILED and never cancels or awaits the other step tasks, so ``close()`` can run while
-  DeploySteps are still inside ``deploy()`` and while steps still call connectors: *one*
-  ``undeploy_all`` racing with in-flight ``deploy``/use requests is producible (shape ``close-race``).
+  terminates FAILED (and returns as soon as all have terminated) and never cancels or awaits the
+  other step tasks, so ``close()`` can run while DeploySteps are still inside ``deploy()`` and while
+  steps still call connectors: *one* ``undeploy_all`` racing with in-flight ``deploy``/use requests is
+  producible (shape ``close-race``).
 * ``undeploy(name)`` has no caller in ``/repo/streamflow`` besides the manager itself. It is a
   documented public method ("it is in charge of the DeploymentManager to correctly handle concurrent
   calls to the undeploy method with the same target") used by the repository's tests in phases:
   concurrent deploys, then, after they returned, concurrent undeploys, then deploys again (shape
-  ``phased``). ``undeploy(d)`` racing with ``deploy(d)`` is produced by no caller and is not generated.
+  ``phased``). ``undeploy(d)`` racing with ``deploy`` is produced by no caller and is not generated.
+
+Sub-checks: ``prodlike`` (a: deploy/use requests, then one ``close()``), ``mixed`` (b: ``close-race``
+and ``phased``), ``exhaustive`` (2 tasks x <= 2 ops x every delay vector in {0,1,2}^k, shapes
+``prodlike`` and ``close-race``).
+
+Oracle = the five clauses of the statement, over the event log:
+1. per deployment, no connector instance starts deploying while another instance is live
+   (deploy-start .. undeploy-finished / deploy-failed); no instance deployed or undeployed twice;
+2. an eager ``deploy()`` that returns normally saw a deployed instance during its lifetime; connector
+   calls run only on instances whose deploy finished; a wrapper starts deploying only when its eager
+   inner deployment is deployed (documented: "the wrapped environment must be deployed before");
+3. no instance starts undeploying while an instance of a deployment wrapping it is live;
+4. when ``undeploy_all``/``close`` returns, every instance that was live when it was called (and whose
+   deploy did not fail) has been asked to undeploy, exactly once;
+5. a request raises only if a deployment it depends on failed (any exception type is accepted then)
+   or, for ``WorkflowExecutionException``, if an undeploy raced with it; nothing is pending at
+   quiescence.
+Several violations in one run: the earliest in log order is reported.
 """
 from __future__ import annotations
 
@@ -52,7 +72,10 @@ prop = Prop(
     level_note=(
         "Only interleavings expressible as delays of connector deploy/undeploy/calls and request start offsets; only histories "
         "real callers produce (one racing undeploy_all; undeploy(d) only in quiesced phases). Liveness is 'no request pending at "
-        "quiescence of a finite history'. Real connectors (docker, ssh...) are replaced by in-memory fakes."
+        "quiescence of a finite history'. Real connectors (docker, ssh...) are replaced by in-memory fakes. Eight root causes "
+        "found on the pinned tree are listed as known findings (four reachable without any undeploy race); symptoms that follow an "
+        "undeploy/deploy overlap are bucketed by the overlap's kind (C26:undeploy-race:*), so a new defect that only shows inside "
+        "such a race could hide behind them."
     ),
     assumptions=[
         "connector deploy/undeploy/calls may take arbitrarily long relative to each other (sound delay model)",
@@ -151,6 +174,8 @@ class Run:
 class TreeCursor:
     """Delay source for the exhaustive driver: follows `prefix`, then 0; records what it handed out."""
 
+    kinds = ("deploy", "undeploy")  # delays are decided inside the fakes' deploy/undeploy only (connector calls take 0 turns)
+
     def __init__(self, prefix):
         self.prefix = list(prefix)
         self.taken = []
@@ -244,12 +269,11 @@ async def execute(case, source=None) -> Run:
                         announced.add(name)
                     elif name not in announced:
                         rq["skipped"] = True  # nobody can know the deployment yet: no deploy(name) has returned
-                    if not rq["skipped"]:
-                        conn = manager.get_connector(name)
+                    conn = None if rq["skipped"] else manager.get_connector(name)
                     if rq["skipped"]:
                         pass
                     elif conn is None:
-                        rq["connector_none"] = True
+                        rq["connector_none"] = True  # undeployed meanwhile: nothing to call (not the manager's fault)
                     elif len(op) > 2 and op[2] == "locs":
                         await conn.get_available_locations()
                     else:
@@ -313,6 +337,12 @@ async def execute(case, source=None) -> Run:
 
 UNDEPLOYISH = ("undeploy", "undeploy_all", "close")
 REQUESTISH = ("deploy", "use", "call")
+# symptom kinds that an undeploy racing with a deploy is known to produce (see the end of judge())
+RACE_KINDS = (
+    "C26:crash:", "C26:undeploy-before-deploy-finished", "C26:call-on-undeployed-connector", "C26:deploy-returned-before-deployed",
+    "C26:two-instances-deploying", "C26:redeploy-while-live", "C26:redeploy-during-undeploy", "C26:double-undeploy",
+    "C26:instance-deployed-twice", "C26:use-returned-without-call", "C26:spurious-failed-deployment", "C26:deadlock:",
+)
 
 
 def judge(run: Run):
@@ -360,9 +390,6 @@ def judge(run: Run):
     def live_at(i, t):  # from deploy-start until undeploy-finished / deploy-failed
         return bool(i["ds"]) and i["ds"][0] < t and end_of(i) > t
 
-    def undeploy_requested_in(name, a, b):  # an undeploy request covering `name` was in progress inside (a, b)
-        return any(r["kind"] in UNDEPLOYISH and r["start"] < b and a < r["end"] and (r["kind"] != "undeploy" or r["dep"] == name) for r in reqs)
-
     def wrappers_up(name):  # deployments that transitively wrap `name`
         out, todo = [], list(wrappers_of[name])
         while todo:
@@ -382,7 +409,7 @@ def judge(run: Run):
         for k in ids:
             i = inst[k]
             if len(i["ds"]) > 1:
-                V.append((i["ds"][1], "C26:instance-deployed-twice", f"{k} got deploy() at {i['ds']}"))
+                V.append((i["ds"][1], "C26:instance-deployed-twice", f"{k} got deploy() at {i['ds']}", name))
             if not i["ds"]:
                 continue
             t = i["ds"][0]
@@ -394,19 +421,17 @@ def judge(run: Run):
                     kind = "C26:redeploy-during-undeploy"
                 else:
                     kind = "C26:two-instances-deploying" if (j["df"] is None or j["df"] > t) else "C26:redeploy-while-live"
-                    if by[name]["lazy"] and undeploy_requested_in(name, j["ds"][0], j["df"] if j["df"] is not None else INF):
-                        kind += ":after-undeploy-during-lazy-deploy"
-                V.append((t, kind, f"{k} deploy-start at {t} while {k2} is live (deploy {j['ds'][0]}..{j['df']}, undeploy {j['us']}..{j['uf']})"))
+                V.append((t, kind, f"{k} deploy-start at {t} while {k2} is live (deploy {j['ds'][0]}..{j['df']}, undeploy {j['us']}..{j['uf']})", name))
     # a connector is undeployed only after its own deploy finished, and exactly once; calls only on deployed connectors
     for k, i in inst.items():
         for u in i["us"][:1]:
             if i["ds"] and i["ds"][0] < u and i["dx"] is None and (i["df"] is None or i["df"] > u):
-                V.append((u, "C26:undeploy-before-deploy-finished", f"{k}: undeploy-start at {u}, deploy {i['ds']}..{i['df']}"))
+                V.append((u, "C26:undeploy-before-deploy-finished", f"{k}: undeploy-start at {u}, deploy {i['ds']}..{i['df']}", i["dep"]))
         if len(i["us"]) > 1:
-            V.append((i["us"][1], "C26:double-undeploy", f"{k}: undeploy() called at {i['us']}"))
+            V.append((i["us"][1], "C26:double-undeploy", f"{k}: undeploy() called at {i['us']}", i["dep"]))
         for t, what in i["calls"]:
             if not (i["df"] is not None and i["df"] < t):
-                V.append((t, "C26:call-on-undeployed-connector", f"{k}: {what} at {t}, deploy {i['ds']}..{i['df']} failed={i['dx']}"))
+                V.append((t, "C26:call-on-undeployed-connector", f"{k}: {what} at {t}, deploy {i['ds']}..{i['df']} failed={i['dx']}", i["dep"]))
                 break
 
     # clause 3 (+ the documented deploy order): wrapped vs wrapping
@@ -417,13 +442,21 @@ def judge(run: Run):
                 for kw in order[wname]:
                     w = inst[kw]
                     if live_at(w, u):
-                        q = ":wrapper-deploying" if (w["df"] is None or w["df"] > u) else ""
-                        V.append((u, "C26:inner-undeployed-while-wrapper-live" + q, f"{k} undeploy-start at {u} while wrapper {kw} is live (deploy {w['ds']}..{w['df']})"))
+                        up2 = wrappers_up(wname)
+                        if by[wname]["lazy"] and any(r["kind"] in UNDEPLOYISH and r["start"] < (w["df"] or w["dx"] or INF) and w["ds"][0] < r["end"] for r in reqs):
+                            q = ":lazy-wrapper-deploy-raced-undeploy"  # FutureConnector.undeploy skipped it: see DIRECT below
+                        elif w["df"] is None or w["df"] > u:
+                            q = ":wrapper-deploying"
+                        elif any(order[w2] for w2 in up2) or any(r["kind"] in ("deploy", "use") and r["dep"] in up2 and r["start"] < u for r in reqs):
+                            q = ":wrapper-itself-wrapped"  # a stack of >= 3: the live wrapper is (or was asked to be) wrapped in turn
+                        else:
+                            q = ""
+                        V.append((u, "C26:inner-undeployed-while-wrapper-live" + q, f"{k} undeploy-start at {u} while wrapper {kw} is live (deploy {w['ds']}..{w['df']})", name))
         d = by[name]
         if d["wrap"] and d["wraps"] in by and not by[d["wraps"]]["lazy"] and i["ds"]:
             t = i["ds"][0]
             if not any(deployed_at(inst[ki], t) for ki in order[d["wraps"]]):
-                V.append((t, "C26:wrapper-deployed-before-inner", f"{k} deploy-start at {t}, no deployed instance of eager {d['wraps']}: {[(ki, inst[ki]['ds'], inst[ki]['df'], inst[ki]['dx'], inst[ki]['us']) for ki in order[d['wraps']]]}"))
+                V.append((t, "C26:wrapper-deployed-before-inner", f"{k} deploy-start at {t}, no deployed instance of eager {d['wraps']}: {[(ki, inst[ki]['ds'], inst[ki]['df'], inst[ki]['dx'], inst[ki]['us']) for ki in order[d['wraps']]]}", name))
 
     def failed_before(names, t):
         return [k for k, i in inst.items() if i["dep"] in names and i["dx"] is not None and i["dx"] < t]
@@ -445,24 +478,25 @@ def judge(run: Run):
                 if raced:
                     refused = True  # the deployment was undeployed under the request: failing is an accepted outcome
                     continue
-                V.append((t, "C26:spurious-failed-deployment", f"{rq['rid']} {kind}({name}) raised {rq['exc']}({rq['msg']}) but no deploy of {sorted(clos.get(name, []))} failed and no undeploy raced"))
+                V.append((t, "C26:spurious-failed-deployment", f"{rq['rid']} {kind}({name}) raised {rq['exc']}({rq['msg']}) but no deploy of {sorted(clos.get(name, []))} failed and no undeploy raced", name))
             else:
-                V.append((t, f"C26:crash:{rq['exc']}@{rq['where']}", f"{rq['rid']} {kind}({name}) raised {rq['exc']}({rq['msg']}); no deployment it depends on failed"))
+                V.append((t, f"C26:crash:{rq['exc']}@{rq['where']}", f"{rq['rid']} {kind}({name}) raised {rq['exc']}({rq['msg']}); no deployment it depends on failed", name))
             continue
         if kind in ("deploy", "use") and not by[name]["lazy"]:
             ids = order[name]
             # at some moment of the request's lifetime an instance of the deployment was deployed
             ok = any(inst[k]["df"] is not None and inst[k]["df"] < t and not (inst[k]["us"] and inst[k]["us"][0] < s) for k in ids)
             if not ok:
-                V.append((t, "C26:deploy-returned-before-deployed", f"{rq['rid']} {kind}({name}) returned at {t}; instances {[(k, inst[k]['ds'], inst[k]['df'], inst[k]['us']) for k in ids]}"))
+                V.append((t, "C26:deploy-returned-before-deployed", f"{rq['rid']} {kind}({name}) returned at {t}; instances {[(k, inst[k]['ds'], inst[k]['df'], inst[k]['us']) for k in ids]}", name))
         if kind in ("use", "call") and not rq["connector_none"] and not rq["skipped"]:
             if not any(s < c < t for k in order[name] for c, _ in inst[k]["calls"]):
-                V.append((t, "C26:use-returned-without-call", f"{rq['rid']} {kind}({name}) returned, no connector call in ({s},{t})"))
+                V.append((t, "C26:use-returned-without-call", f"{rq['rid']} {kind}({name}) returned, no connector call in ({s},{t})", name))
         if kind in ("undeploy_all", "close"):
             # every connector live when the request was made has been asked to undeploy when it returns; if another
             # undeploy request runs concurrently it may be the one doing it, then "eventually" (by quiescence) is enough
             shared = any(o is not rq and o["kind"] in UNDEPLOYISH and o["start"] < t and s < o["end"] for o in reqs)
-            deadline = INF if shared else t
+            phase = rq["rid"].split(".", 1)[0] + "."
+            deadline = max(o["end"] for o in reqs if o["rid"].startswith(phase)) + 1 if shared else t
             for k, i in inst.items():
                 if not live_at(i, s) or i["dx"] is not None or (i["us"] and i["us"][0] < deadline):
                     continue
@@ -475,7 +509,7 @@ def judge(run: Run):
                     q = ":pinned-by-deploy-request-during-undeploy_all"
                 else:
                     q = ""
-                V.append((t, "C26:undeploy_all-leaves-live-connector" + q, f"{rq['rid']} {kind} [{s},{t}]: {k} deploy {i['ds']}..{i['df']} undeploy {i['us']}..{i['uf']}"))
+                V.append((t, "C26:undeploy_all-leaves-live-connector" + q, f"{rq['rid']} {kind} [{s},{t}]: {k} deploy {i['ds']}..{i['df']} undeploy {i['us']}..{i['uf']}", i["dep"]))
 
     # liveness: nothing may be pending at quiescence
     for tname, where in run.stuck:
@@ -488,9 +522,11 @@ def judge(run: Run):
         if not tname.startswith("c26-"):
             kind = f"C26:deadlock:orphan-task:{func}"
         else:
-            failed = bool(open_rq and open_rq[0]["kind"] in REQUESTISH and failed_before(clos[open_rq[0]["dep"]], INF))
-            kind = f"C26:deadlock:{func}" + (":after-failure" if failed else "")
-        V.append((INF, kind, f"{tname} ({open_rq[0]['kind'] + ' ' + open_rq[0]['dep'] if open_rq else '-'}) pending at quiescence in {where}; tail: {trace(len(run.log) - 14, len(run.log))}"))
+            kind = f"C26:deadlock:{func}"
+            if open_rq and open_rq[0]["kind"] in REQUESTISH and failed_before(clos[open_rq[0]["dep"]], INF):
+                own = failed_before({open_rq[0]["dep"]}, INF)
+                kind += ":after-own-failure" if own else ":after-inner-failure"
+        V.append((INF, kind, f"{tname} ({open_rq[0]['kind'] + ' ' + open_rq[0]['dep'] if open_rq else '-'}) pending at quiescence in {where}; tail: {trace(len(run.log) - 14, len(run.log))}", (open_rq[0]["dep"] if open_rq else "")))
 
     # facts for classification (all measured from the log)
     def touch(r):
@@ -499,7 +535,7 @@ def judge(run: Run):
         return clos[r["dep"]] | set(wrappers_up(r["dep"]) if r["kind"] == "undeploy" else ())
 
     overlap = False
-    for a, b in itertools.combinations(reqs, 2):
+    for a, b in itertools.combinations([r for r in reqs if not r["skipped"] and not r["connector_none"]], 2):
         if a["start"] < b["end"] and b["start"] < a["end"] and touch(a) & touch(b):
             overlap = True
             break
@@ -522,6 +558,64 @@ def judge(run: Run):
         "refused_by_undeploy": refused,
         "undocumented_failure_exc": sorted(accepted_exc - {"WorkflowExecutionException", "ScriptedDeployFailure"}),
     }
+    # Root-cause bucketing of what an undeploy racing with a deploy produces (finding F12). undeploy() is not written
+    # to run concurrently with _deploy(): it deletes the map entries before awaiting connector.undeploy and finally
+    # sets whatever event is then registered under the name; it does not re-check anything after waiting for the
+    # deployment event; its orphan sweep hits deployments that are still being deployed; FutureConnector.undeploy
+    # ignores a lazy deployment in flight; undeploy_all does not fence new deploy requests. Once one of these
+    # preconditions has occurred for a group of stacked deployments, the symptoms listed in RACE_KINDS on that group
+    # are consequences of it and are reported under the precondition's kind (the symptom stays in the message).
+    comp = {}
+    for n in by:
+        comp[n] = {m for m in by if clos[n] & clos[m] or n in clos[m] or m in clos[n]}
+    for _ in by:  # transitive closure over <= 3 names
+        for n in by:
+            for m in list(comp[n]):
+                comp[n] |= comp[m]
+    unreqs = [r for r in reqs if r["kind"] in UNDEPLOYISH]
+
+    def precondition(dep, q):
+        group = comp.get(dep, set(by))
+        found = []
+        for n in group:
+            ids = order[n]
+            for a in ids:
+                for b in ids:
+                    i, j = inst[a], inst[b]
+                    if a != b and i["us"] and i["us"][0] < j["create"] < (i["uf"][0] if i["uf"] else INF) and j["create"] <= q:
+                        found.append((0, "redeploy-during-undeploy"))
+            for a in ids:
+                i = inst[a]
+                if not i["ds"]:
+                    continue
+                for u in unreqs:
+                    if u["kind"] == "undeploy" and u["dep"] not in group:
+                        continue
+                    if i["ds"][0] < u["end"] and u["start"] < (i["df"] or i["dx"] or INF) and max(i["ds"][0], u["start"]) <= q:
+                        found.append((2, "lazy-deploy-in-flight") if by[n]["lazy"] else (1, "undeploy-during-eager-deploy"))
+        for r in reqs:
+            if r["kind"] in REQUESTISH and not r["skipped"] and r["dep"] in group:
+                for u in unreqs:
+                    if u["kind"] != "undeploy" and r["start"] < u["end"] and u["start"] < r["end"] and max(r["start"], u["start"]) <= q:
+                        found.append((3, "deploy-request-during-undeploy_all"))
+        return min(found)[1] if found else None
+
+    DIRECT = {
+        "C26:inner-undeployed-while-wrapper-live:lazy-wrapper-deploy-raced-undeploy": "lazy-deploy-in-flight",
+        "C26:undeploy_all-leaves-live-connector:lazy-deploy-in-flight": "lazy-deploy-in-flight",
+        "C26:undeploy_all-leaves-live-connector:pinned-by-deploy-request-during-undeploy_all": "deploy-request-during-undeploy_all",
+    }
+    out = []
+    for q, k, m, dep in V:
+        if k in DIRECT:
+            k, m = "C26:undeploy-race:" + DIRECT[k], f"[{k.split(':', 2)[2]}] {m}"
+        elif (k.startswith(RACE_KINDS) and not k.endswith("-failure")) or k == "C26:inner-undeployed-while-wrapper-live:wrapper-deploying":
+            pre = precondition(dep, q)
+            if pre is not None:
+                k, m = "C26:undeploy-race:" + pre, f"[{k.split(':', 1)[1]}] {m}"
+        out.append((q, k, m))
+    V = out
+    facts["undeploy_race"] = any(k.startswith("C26:undeploy-race:") for _, k, _ in V) or precondition("", INF) is not None
     V.sort(key=lambda v: (v[0], v[1]))
     return V, facts
 
@@ -565,7 +659,7 @@ def classify(case, run, facts, rec):
         rec.label("external")
     rec.label(f"tasks={max(len(p) for p in case['phases'])}")
     for k in ("failure", "waiter_failed", "lazy_deployed", "wrapper_deployed", "redeploy", "undeploy_overlaps_deploy",
-              "connector_none", "refused_by_undeploy"):
+              "connector_none", "refused_by_undeploy", "undeploy_race"):
         if facts[k]:
             rec.label(k.replace("_", "-"))
     for x in facts["undocumented_failure_exc"]:
